@@ -11,8 +11,8 @@ theorem insertBy_perm {α} (lt : α → α → Bool) (x : α) (l : List α) : (i
   | cons y l ih =>
     simp only [insertBy]
     split
-    · exact List.Perm.refl _
     · exact (List.Perm.cons y ih).trans (List.Perm.swap x y l)
+    · exact List.Perm.refl _
 
 theorem sortOn_perm {α} (lt : α → α → Bool) (l : List α) : (sortOn lt l).Perm l := by
   induction l with
